@@ -801,7 +801,8 @@ func rankingLeaves(q querySpec) []querySpec {
 }
 
 var selectPool = [][]string{{"*"}, {"i"}, {"s", "i"}, {"nested.n"}, {"nested"}, {"extra"}, {"missing"}, {"nested.n", "nested.deep.s"},
-	{"txt", "i"}, {"fv"}, {"tags"}, {"nested", "nested.n"}, {"nested.n", "nested"}, {"i", "*"}, {"s", "extra", "note", "tags"}}
+	{"txt", "i"}, {"fv"}, {"tags"}, {"nested", "nested.n"}, {"nested.n", "nested"}, {"i", "*"}, {"s", "extra", "note", "tags"},
+	{"nested.m", "nested", "i"}, {"nested.n", "i", "nested"}, {"nested.m.k", "nested.m"}, {"nested.m.k", "nested"}}
 
 func (g *genState) reqsC06(docs map[uuid.UUID]Val) []requestSpec {
 	r := g.r
@@ -820,7 +821,9 @@ func (g *genState) reqsC06(docs map[uuid.UUID]Val) []requestSpec {
 			// sort keys among the selected paths (with "*" any stored path)
 			cands := rq.sel
 			if rq.sel[0] == "*" || (len(rq.sel) > 1 && rq.sel[1] == "*") {
-				cands = []string{"i", "s", "nested.n", "extra", "note", "missing", "txt", "nested.deep.s", "f"}
+				cands = []string{"i", "s", "nested.n", "extra", "note", "missing", "txt", "nested.deep.s", "f", "nested.m.k"}
+			} else if r.IntN(3) == 0 {
+				cands = append(append([]string{}, rq.sel...), "nested.n", "nested.m.k") // keys below a selected parent
 			}
 			m := 1 + r.IntN(3)
 			for j := 0; j < m; j++ {
